@@ -320,4 +320,58 @@ theorem classifyIn_perm (uni : Char → Bool) (tbl tbl' : List (Family × List C
       List.find?_eq_none.mpr (fun x hx => hn x (hperm.mem_iff.mp hx))
     rw [this]
 
+
+/-! ### the pre-scan ignores trivia between tokens -/
+
+theorem ws_is_plain {c : Char} (h : isWhitespace c = true) :
+    (c == '/') = false ∧ (c == '"') = false ∧ isOpener c = false ∧ closerOf c = none := by
+  refine ⟨?_, ?_, ?_, ?_⟩
+  · simp only [beq_eq_false_iff_ne, ne_eq]; intro he; subst he; revert h; decide
+  · simp only [beq_eq_false_iff_ne, ne_eq]; intro he; subst he; revert h; decide
+  · simp only [isOpener, Bool.or_eq_false_iff, beq_eq_false_iff_ne, ne_eq]
+    refine ⟨⟨?_, ?_⟩, ?_⟩ <;> (intro he; subst he; revert h; decide)
+  · unfold closerOf
+    have h1 : (c == ')') = false := by
+      simp only [beq_eq_false_iff_ne, ne_eq]; intro he; subst he; revert h; decide
+    have h2 : (c == ']') = false := by
+      simp only [beq_eq_false_iff_ne, ne_eq]; intro he; subst he; revert h; decide
+    have h3 : (c == '}') = false := by
+      simp only [beq_eq_false_iff_ne, ne_eq]; intro he; subst he; revert h; decide
+    simp [h1, h2, h3]
+
+theorem scan_comment_body (d : Nat) (stk : List Char) (body rest : List Char) (h : '\n' ∉ body) :
+    scan d { stack := stk, lex := { inLineComment := true } } (body ++ '\n' :: rest) =
+      scan d { stack := stk, lex := {} } rest := by
+  induction body with
+  | nil => simp [scan, step]
+  | cons c cs ih =>
+    have hc : (c == '\n') = false := by
+      simp only [List.mem_cons, not_or] at h
+      simp; exact fun e => h.1 e.symm
+    have hcs : '\n' ∉ cs := by
+      simp only [List.mem_cons, not_or] at h; exact h.2
+    rw [List.cons_append, scan]
+    simp only [step, hc]
+    simpa using ih hcs
+
+/-- From a code position with no `/` pending, a run of trivia leaves the pre-scan where it was. -/
+theorem scan_trivia (d : Nat) {t : List Char} (ht : Trivia t) (stk : List Char) (rest : List Char) :
+    scan d { stack := stk, lex := {} } (t ++ rest) = scan d { stack := stk, lex := {} } rest := by
+  induction ht with
+  | nil => rfl
+  | ws c t hc _ ih =>
+    obtain ⟨h1, h2, h3, h4⟩ := ws_is_plain hc
+    rw [List.cons_append, scan]
+    simp only [step, h1, h2, h3, h4]
+    simpa using ih
+  | comment body t hb _ ih =>
+    rw [List.cons_append, List.cons_append, scan]
+    simp only [step]
+    simp only [Bool.false_eq_true, if_false, beq_self_eq_true, if_true]
+    rw [scan]
+    simp only [step]
+    simp only [Bool.false_eq_true, if_false, beq_self_eq_true, if_true]
+    rw [List.append_assoc, List.cons_append, scan_comment_body d stk body _ hb]
+    exact ih
+
 end AndaVerif.Proofs.KipClassify
